@@ -78,7 +78,68 @@ def inspect_inv(I, frame, i, seq):
     ]
 
 
+# --- the consumers table as "entry table + consumers created by this request" --
+def consumers_view_entry(I, frame, seq):
+    I.ghost.setdefault('consumers0', I.db.tables['consumers'])
+
+
+def _created_ids(I, created, lo=None):
+    """k is the id of created[q] for some q (>= lo)"""
+    def member(k):
+        q = z3.Int('q!cv')
+        rng = z3.And(q >= (lo if lo is not None else 0), q < created.len)
+        cid = z3.Select(I.fld(CONSUMER, 'id'), z3.Select(created.arr, q))
+        return z3.Exists([q], z3.And(rng, cid == k))
+    return member
+
+
+def consumers_view(I, created, lo=None):
+    """consumers table == entry table + rows of created[lo:], entry rows
+    untouched, created ids fresh and pairwise distinct."""
+    t0 = I.ghost['consumers0']
+    t = I.db.tables['consumers']
+    k = z3.Int('k!cv')
+    q, q2 = z3.Ints('q!cv1 q!cv2')
+    member = _created_ids(I, created, lo)
+    idq = z3.Select(I.fld(CONSUMER, 'id'), z3.Select(created.arr, q))
+    idq2 = z3.Select(I.fld(CONSUMER, 'id'), z3.Select(created.arr, q2))
+    out = [
+        ops.forall([k], z3.Select(t.exists, k) ==
+                   z3.Or(z3.Select(t0.exists, k), member(k)),
+                   patterns=[z3.Select(t.exists, k)]),
+        ops.forall([k], z3.Implies(z3.Select(t0.exists, k), z3.And(*[
+            z3.Select(t.data[c], k) == z3.Select(t0.data[c], k)
+            for c in t0.data])), patterns=[z3.Select(t0.exists, k)]),
+        ops.forall([q], z3.Implies(
+            z3.And(q >= 0, q < created.len),
+            z3.And(z3.Not(z3.Select(t0.exists, idq)),
+                   z3.Not(z3.Select(I.fld_none(CONSUMER, 'id'),
+                                    z3.Select(created.arr, q))))),
+            patterns=[z3.Select(created.arr, q)]),
+        ops.forall([q, q2], z3.Implies(
+            z3.And(q >= 0, q < q2, q2 < created.len), idq != idq2),
+            patterns=[z3.MultiPattern(z3.Select(created.arr, q),
+                                      z3.Select(created.arr, q2))]),
+    ]
+    return out
+
+
+def inspect_inv2(I, frame, i, seq):
+    return inspect_inv(I, frame, i, seq) + consumers_view(
+        I, frame.locals['new_consumers_created'])
+
+
+def delete_consumers_inv(I, frame, i, seq):
+    created = frame.locals['consumers']
+    if 'consumers0' not in I.ghost or not isinstance(created, SList):
+        return []
+    return consumers_view(I, created, lo=i)
+
+
 LOOPS = {
+    ('delete_consumers', 1): LoopSpec(
+        invariant=delete_consumers_inv, name='H.delete_consumers',
+        keep=('consumers',), modifies_db=('consumers',)),
     ('update_consumers', 1): LoopSpec(
         name='H.update_consumers', keep=('request_attrs',),
         modifies_db=('consumers',),
@@ -89,7 +150,8 @@ LOOPS = {
         invariant=rps_by_uuid_inv, name='H.rps_by_uuid',
         keep=('ctx', 'rp_uuids')),
     ('inspect_consumers', 1): LoopSpec(
-        invariant=inspect_inv, name='H.inspect_consumers',
+        invariant=inspect_inv2, on_entry=consumers_view_entry,
+        name='H.inspect_consumers',
         keep=('context', 'data', 'want_version'),
         modifies_db=('projects', 'users', 'consumer_types', 'consumers')),
 }
